@@ -44,3 +44,8 @@ example : ∃ t, runLabels init [.start, .swap, .execDone, .stopStore, .stopWake
     t.running = false ∧ t.cpc = .out := by decide
 
 end GN.Props.C07
+
+/-! ## Progress clauses
+
+Proved in `GN/EventLoop/Progress.lean` (audited with this property): progress: Stop() returns after a bounded number of loop steps whatever the other goroutines do: every loop step strictly decreases a measure, other threads' steps raise it by at most one per accepted submission (each accepted function must still be run: no bound independent of submissions exists, proved), and 7 control steps of the loop suffice regardless of submissions; the loop is never stuck while Stop waits.
+Theorems: `GN.EventLoop.Progress.loop_step_decreases_measure`, `GN.EventLoop.Progress.other_step_bounded`, `GN.EventLoop.Progress.stop_returns_after_bounded_loop_steps`, `GN.EventLoop.Progress.stop_returns_after_seven_control_steps`, `GN.EventLoop.Progress.stop_needs_at_least`, `GN.EventLoop.Progress.loop_not_stuck_while_stop_waits`, `GN.EventLoop.Progress.stop_can_return`, `GN.EventLoop.Progress.no_bound_independent_of_submissions`. -/
